@@ -58,6 +58,10 @@ contract(
         "result[1][0] == old_box[1][0] and result[1][1] == old_box[1][1])",
         # pole marker: only the latitude bound moves, longitude untouched
         f"implies(not {_ALLFILL} and {_NORTH}, result[0][1] == pi / 2)",
+        f"implies(not {_ALLFILL} and {_SOUTH}, result[0][0] == 0 - pi / 2)",
+        # ... and the OTHER latitude bound collected so far is kept
+        f"implies(not {_ALLFILL} and {_NORTH} and not {_UNSET_LAT}, result[0][0] == old_box[0][0])",
+        f"implies(not {_ALLFILL} and {_SOUTH} and not {_UNSET_LAT}, result[0][1] == old_box[0][1])",
         f"implies(not {_ALLFILL} and {_POLE} and not {_UNSET_LON}, result[1][0] == old_box[1][0] and result[1][1] == old_box[1][1])",
         # ordinary point: latitude enclosure (point and old interval) and tightness
         f"implies(not {_ALLFILL} and not {_POLE}, result[0][0] <= new_pt[0] and new_pt[0] <= result[0][1])",
